@@ -11,7 +11,7 @@ CONSTANTS
   UpdIvs <- UIvs6
   UpdPool <- UPool7
   UpdMax = 3
-  ResCons <- RCons4
+  ResCons <- RCons6
   ResVers <- RVers4
   ResTargets <- TgtSAB
   ResSelf <- TgtAB
